@@ -31,7 +31,7 @@ ASSUMPTIONS = [
 ]
 BOUNDS = {"quick": {"variables": "<=5", "terms": "<=2 a, <=3 g"}, "thorough": {"variables": "<=6", "terms": "<=2 a, <=3 g"}}
 OPTS = {"quick": {"tier_budget_s": 230, "max_paths": 1500, "job_budget_s": 60, "witness_rate": 0.3}, "thorough": {"tier_budget_s": 2400, "max_paths": 20000, "job_budget_s": 400}}
-OPS = ["compose", "quotient", "merge", "refines", "rename", "copy", "tl-simplify", "elim-refine", "elim-relax", "optimize", "bounds", "machine-dict", "string-dict", "parse", "contains", "is-empty", "tl-ops", "evaluate"]
+OPS = ["compose", "quotient", "merge", "refines", "rename", "rename-direct", "copy", "tl-simplify", "elim-refine", "elim-relax", "optimize", "bounds", "machine-dict", "string-dict", "parse", "contains", "is-empty", "tl-ops", "evaluate"]
 REACH = {"quick": ["returned", "raised"] + ["op:" + o for o in OPS]}
 
 
@@ -179,6 +179,10 @@ def run(ctx, job):
             return bool(c1.refines(c2))
         if op == "rename":
             return c1.rename_variables([(job["c1"]["in"][0], "renamed"), (job["c1"]["out"][0], "renamed2")])
+        if op == "rename-direct":
+            src = (job["c1"]["in"] + job["c1"]["out"])[int(job["pick"] * len(job["c1"]["in"] + job["c1"]["out"]))]
+            tgt = "renamed" if job["simplify"] else ([v for v in (job["c1"]["in"] if src in job["c1"]["in"] else job["c1"]["out"]) if v != src] or ["renamed"])[0]
+            return c1.rename_variable(B.Var(src), B.Var(tgt))
         if op == "copy":
             return c1.copy()
         if op == "tl-simplify":
